@@ -1,0 +1,17 @@
+//go:build verif
+
+// Contracts for the deductive verifier under /verif (comment-only file: it
+// adds no code; compiled only with -tags verif).
+package processor
+
+// C09: whatever the plugin returns (any number of results, a condition error at
+// any record), Process neither indexes out of range nor returns more results than
+// records; passthrough records go back to their own slot.
+//verif:func (*RunnableProcessor).Process(p, ctx, records) (out)
+//verif:ensures[no-more-results-than-records] p.cond != nil ==> len(out) <= len(records) || len(out) == 1
+//verif:loop 0 vars j=rangeindex
+//verif:loop 0 invariant j < len(records) && len(passthroughRecordIndexes) <= j + 1 && len(keptRecords) <= j + 1 && len(keptRecords) + len(passthroughRecordIndexes) <= j + 1 && (forall k in [0, len(passthroughRecordIndexes)): 0 <= passthroughRecordIndexes[k] && passthroughRecordIndexes[k] <= j) && cap(keptRecords) == len(records) && cap(passthroughRecordIndexes) == len(records) && err$1 == nil
+//verif:loop 1 vars j1=rangeindex
+//verif:loop 1 invariant j1 < len(records) && len(outRecs) == len(records)
+//verif:loop 2 vars j2=rangeindex
+//verif:loop 2 invariant 0 <= nextPassthrough && 0 <= nextOut && len(tmp) == nextPassthrough + nextOut && len(tmp) == j2 + 1 && j2 < len(records)
